@@ -149,6 +149,21 @@ def plan(rng, thorough, stats):
     return bs
 
 
+def _ok(k):
+    return {"nodes": [{"k": "src", "cfg": {"value": 2 + k}}, {"k": "mul", "cfg": {"factor": PRIMES[k]}}]}
+
+
+# deterministic exploration (gate scheduler of the driver): (name, jobs, workers, budget_s)
+EXPLORE_QUICK = [("1 ok + 1 failing job, 2 workers", [_ok(0), failing_job(1, "unresolved")], 2, 60)]
+EXPLORE_THOROUGH = [
+    ("2 ok jobs, 2 workers", [_ok(0), _ok(1)], 2, 400),
+    ("1 failing + 1 ok job, 2 workers", [failing_job(0, "processor"), _ok(1)], 2, 400),
+    ("3 ok jobs, 1 worker", [_ok(0), _ok(1), _ok(2)], 1, 500),
+    ("3 jobs (middle one failing), 2 workers", [_ok(0), failing_job(1, "unresolved"), _ok(2)], 2, 700),
+    ("Pipeline-instance config + ok job, 2 workers", [dict(_ok(0), cfg="pipeline"), _ok(1)], 2, 400),
+    ("2 ok jobs, 3 workers", [_ok(0), _ok(1)], 3, 500),
+]
+
 MINIMAL = [  # the stored minimal failing inputs of the findings (always run first)
     ("failing job alone", {"jobs": [failing_job(0, "unresolved")], "workers": 1}),
     ("Pipeline instance as configuration", {"jobs": [dict(distinct_job(0, random.Random(1)), cfg="pipeline")], "workers": 1}),
@@ -212,7 +227,9 @@ def run_chunk(batches, timeout):
 
 
 def specific_signature(sig, jd):
-    if sig == "C15:result-differs-from-direct-execution" and jd.get("data") == []:
+    if jd.get("data") == [] and sig in ("C15:result-differs-from-direct-execution", "C15:successful-job-future-never-completes",
+                                        "C15:successful-job-future-fails"):
+        # one root cause (`msg.data or NoDataType()`): the pipeline sees no data instead of the empty collection
         return "C15:empty-collection-payload-replaced-by-no-data"
     if sig.startswith("C15:rejected-config-future-never-completes"):
         return "C15:rejected-config-future-never-completes"
@@ -250,8 +267,12 @@ def run(ck):
         chunks[j % nchunks].append(i)
     chunks = [c for c in chunks if c]
     tmo = 1200 if thorough else 150
-    with ThreadPoolExecutor(max_workers=len(chunks)) as ex:
+    explore_plan = EXPLORE_THOROUGH if thorough else EXPLORE_QUICK
+    with ThreadPoolExecutor(max_workers=len(chunks) + len(explore_plan)) as ex:
+        fx = [ex.submit(core.run_impl, DRIVER, (), {"explore": json.loads(json.dumps({"jobs": js, "workers": w, "what": "explore: " + name})),
+                                                    "budget_s": bud}, bud + 120) for name, js, w, bud in explore_plan]
         outs = list(ex.map(lambda c: run_chunk([batches[i] for i in c], tmo), chunks))
+        explored = [f.result() for f in fx]
     results = [None] * len(batches)
     files = None
     for c, (res, err) in zip(chunks, outs):
@@ -262,6 +283,27 @@ def run(ck):
         for i, r in zip(c, res["results"]):
             results[i] = r
     ck.notes["files_under_test"] = files
+    # ---- executions of the deterministic exploration are treated like batches (same oracles, same Coq comparison)
+    ex_notes = []
+    n_sched = 0
+    for (name, js, w, bud), (res, err) in zip(explore_plan, explored):
+        if res is None:
+            ck.corr_problem("deterministic exploration did not complete: " + name, str(err)[-1200:])
+            continue
+        bad = [e for e in res["executions"] if e.get("status") != "ok"]
+        ex_notes.append({"scenario": name, "schedules": len(res["executions"]), "complete": res["complete"],
+                         "inconclusive": len(bad)})
+        if bad:
+            ck.corr_problem("%d schedule(s) inconclusive under the gate scheduler: %s" % (len(bad), name),
+                            json.dumps([e.get("schedule") for e in bad[:3]])[:600])
+        for e in res["executions"]:
+            n_sched += 1
+            if e.get("dup") or e.get("status") != "ok":
+                continue
+            batches.append(json.loads(json.dumps({"jobs": js, "workers": w, "what": "explore: " + name, "schedule": e["schedule"]})))
+            results.append(e)
+    ck.notes["deterministic_exploration"] = ex_notes
+    ck.log("deterministic exploration: %s" % json.dumps(ex_notes))
 
     # ---- direct oracles + cases
     found = {}     # signature -> (cost, what, replay)
@@ -379,7 +421,13 @@ def replay(obj):
     r = obj["replay"]
     b = dict(r["batch"])
     b.setdefault("timeout_s", 20.0)
-    res, err = run_chunk([b], 120)
+    if "schedule" in b:      # a schedule of the deterministic exploration: re-run exactly that one
+        res, err = core.run_impl(DRIVER, input_obj={"explore": b, "root": b["schedule"], "max_execs": 1, "budget_s": 60}, timeout=150)
+        if res is not None:
+            res = {"results": res["executions"], "files": res["files"]}
+            print("gate schedule:", b["schedule"])
+    else:
+        res, err = run_chunk([b], 120)
     if res is None:
         print("replay did not run:", err)
         return 2
@@ -390,8 +438,12 @@ def replay(obj):
         return 2
     print("batch: %d job(s), %d worker(s)" % (len(b["jobs"]), b.get("workers", 1)))
     for k, jd in enumerate(b["jobs"]):
-        print("  job %d: config kind=%s nodes=%s data=%r ctx=%r" % (k, jd.get("cfg", "list"), [pg.node_impl_repr(n) for n in jd["nodes"]]
-                                                                  if False else json.dumps(jd["nodes"]), jd.get("data"), jd.get("ctx", {})))
+        try:
+            cfg = json.dumps([pg.node_impl_repr(n) for n in jd["nodes"]])
+        except Exception:  # noqa
+            cfg = json.dumps(jd["nodes"])
+        print("  job %d: enqueue(%s%s, data=%r, context=%r, return_future=True)"
+              % (k, cfg, "" if jd.get("cfg", "list") == "list" else "  [passed as: %s]" % jd["cfg"], jd.get("data"), jd.get("ctx", {})))
         print("     direct execution:", out["direct"][k])
         print("     future          :", {a: v for a, v in out["obs"][k].items()})
     print("event trace:", out["trace"])
